@@ -59,6 +59,13 @@ def oracle(cases, impl):
             if out.startswith("sdk-mismatch"):
                 fails.append(dict(name="life-" + cid, case=dict(events=c[1], impl=out),
                                   what="after a namespace lifecycle history a key is served by a partition other than the one the client computes from the newest configured partition count: " + out))
+        elif kind == "E":
+            toks = out.split(" ")
+            miss = int(toks[1].split("=")[1]) if len(toks) == 2 and toks[1].startswith("missing=") else -1
+            nk = len(c[3].split(",")) if c[3] else 0
+            if miss < 0 or (miss > 0 and toks[0] != "rejected") or (miss == 0 and toks[0] != str(nk)):
+                fails.append(dict(name="partial-" + cid, case=dict(keys=c[3], impl=out),
+                                  what="merged EXISTS over keys of which some belong to a partition not hosted here must be rejected as a whole (never a partial count); with all partitions hosted it must count every key: " + out))
         elif kind == "R":
             if out not in ("ok", "rejected"):
                 fails.append(dict(name="route-" + cid, case=dict(key=c[3], impl=out),
@@ -147,7 +154,7 @@ def run(ctx):
             hist_all[k] = hist_all.get(k, 0) + v
         for cid, c in cases.items():
             # non-trivial: non-empty key and pnum > 1 for hashes, key list with >= 2 keys for merges
-            if (c[0] == "H" and c[1] != "-" and c[2] not in ("0", "1")) or (c[0] in ("G", "D", "P") and "," in c[-1]) or c[0] in ("X", "R", "L"):
+            if (c[0] == "H" and c[1] != "-" and c[2] not in ("0", "1")) or (c[0] in ("G", "D", "P") and "," in c[-1]) or c[0] in ("X", "R", "L", "E"):
                 distinct.add(vlib.case_hash("\t".join(c)))
         ids = list(cases.keys())
         for cid in ids[:2] + ids[-2:]:
@@ -176,7 +183,7 @@ def run(ctx):
         distinct_nontrivial=len(distinct),
         rule="cases from one seeded PRNG: H = (key, partition count) with keys of length 0..40 incl. all tail lengths and high bytes, "
              "counts 1..1024 (4 keys exhaustively over all counts); X = raw keys for namespace extraction (valid and malformed); "
-             "G/D = merged DEL/EXISTS on a live 4-partition in-process server with duplicate-laden key lists; P = pipelined SETs merged into PLSET across partitions; "
+             "G/D = merged DEL/EXISTS on a live 6-partition (even, not a power of two) in-process server with duplicate-laden key lists; P = pipelined SETs merged into PLSET across partitions; "
              "L = namespace lifecycle histories (partitions initialised/destroyed, namespace re-created with another partition count) with routing probed after every event; R = SET routed to a namespace whose partition 3 is not hosted (must be rejected, never executed elsewhere). "
              "Non-trivial = non-empty key with count > 1, any X, or a merge with >= 2 keys; distinct by hash of the case.",
         histogram=hist_all,
